@@ -13,7 +13,7 @@ ASSUME TLCSet(1, JsonDeserialize(IOEnv.SCEN))
 Scens == TLCGet(1)
 N == Len(Scens)
 
-VARIABLES sid, st, rt, fresh, mono  \* rt = Rates(P, st), computed once per state; mono = Monotone held on the last step
+VARIABLES sid, st, rt, fresh, mono  \* rt = Rates(P, st), computed once per state; mono = Monotone and LoadWithin held on the last step
 vars == <<sid, st, rt, fresh, mono>>
 P == Scens[sid]
 
@@ -29,10 +29,14 @@ Sampled(Q, s) ==
 \* pre: state right after the clock moved; post: settled state at the same date; old: settled state before the step
 ObsOf(Q, old, pre, post) ==
   [t |-> pre.now, k |-> pre.steps,
-   rem   |-> pre.rem, rate |-> pre.rate, was |-> old.ast,
+   rem   |-> pre.rem, rate |-> pre.rate, was |-> old.ast, whole |-> pre.whole,
    hload |-> [h \in Hosts(Q) |-> Delivered(Q, old, pre.rate, h)],
    lload |-> [l \in Links(Q) |-> Usage(Q, old, pre.rate, l)],
-   hcap  |-> [h \in Hosts(Q) |-> RMulI(Speed(Q, old, h), Q.hosts[h].cores)],
+   hcap  |-> [h \in Hosts(Q) |-> HostCap(Q, old, h)],      \* capacity during the elapsed interval
+   \* what Host::get_speed / get_available_speed give when the clock has just moved: the profile points of the new date
+   \* are in effect, the scripted events of that date (pstate) are not yet
+   hcapnow |-> [h \in Hosts(Q) |-> HostCap(Q, pre, h)],
+   hscale  |-> [h \in Hosts(Q) |-> Scale(Q, pre, h)],
    lcap  |-> [l \in Links(Q) |-> Bw(Q, old, l)],
    he |-> pre.he, le |-> pre.le,
    ast |-> post.ast, fin |-> post.fin, val |-> Sampled(Q, post)]
@@ -43,7 +47,7 @@ StepOn == /\ CanStepR(P, st, rt)
           /\ \E pre \in { PreR(P, st, rt) } : \E post \in { Settle(P, pre) } :
                 /\ st' = post
                 /\ rt' = Rates(P, post)
-                /\ mono' = Monotone(P, st, post)
+                /\ mono' = (Monotone(P, st, post) /\ LoadWithin(P, st, pre))
                 /\ PrintT(<<"OBS", sid, ToJson(ObsOf(P, st, pre, post))>>)
           /\ sid' = sid /\ fresh' = FALSE
 Finish == /\ ~CanStepR(P, st, rt)
@@ -54,7 +58,8 @@ Finish == /\ ~CanStepR(P, st, rt)
 Next == StepOn \/ Finish
 
 Inv == TimelineInvR(P, st, rt)
-\* Monotone (remaining never increases, energy never decreases, time moves on) is an action property; it is recorded
+\* Monotone (remaining never increases, energy never decreases, time moves on) and LoadWithin (the loads of the elapsed
+\* interval within the capacities of that interval) are action properties; they are recorded
 \* in the state by the step itself and checked as an invariant (a PROPERTY would make TLC run its liveness machinery,
 \* which regenerates every successor many times)
 Mono == mono
